@@ -455,6 +455,7 @@ pub fn parse_multiline_text(
                 ),
             });
         }
+        parse_swift_chars(line, &format!("Line {}", i + 1))?;
     }
 
     Ok(lines)
